@@ -230,6 +230,11 @@ def stream_items(tier, seed, want):
                         nested.extend(gen.insert_at_nodes(g2, w2)[:1])
         for g in nested:
             add(g, inp01, prio=True)
+        # nested_delimiters: all bracket strings (valid and invalid) up to the bound
+        nd_alpha = [gen.A, gen.B, gen.LP, gen.RP, gen.LB, gen.RB]
+        for g, defs in gen.nd_family():
+            add(g, inputs_all(4 if tier == 'quick' else 5, nd_alpha) + ' ' + inputs_all(3, [gen.LP, gen.RP, gen.LC, gen.RC, gen.COMMA]),
+                prio=True, defs=defs)
     for key, wraps, cnt in (('emit', gen.EMITTERS, 600), ('rec', gen.RECOVERIES, 600), ('deco', gen.DECORATIONS, 600)):
         if key not in want:
             continue
@@ -1715,7 +1720,9 @@ class C09(Prop):
                     why = f'Vec table and tuple table differ: tuple gives {other}'
             if not pred:
                 tot['pred_fail'] += 1
-                self.fail(tot, fails, 'pred', None, 0, f'{why} || table: {line.partition(" I ")[0]} || input #{k} || impl: {a} || spec: {mo.get("S")}')
+                other_line = by_id.get('t' + cid[1:]) if cid[0] == 'v' else None
+                self.fail(tot, fails, 'pred', [(line, k), (other_line, k)] if other_line else line, k,
+                          f'{why} || table: {line.partition(" I ")[0]} || input #{k} || impl: {a} || spec: {mo.get("S")}')
             elif a != mo.get('M'):
                 tot['corr_disagree'] += 1
                 self.fail(tot, fails, 'corr', None, 0, f'table: {line.partition(" I ")[0]} || input #{k} || impl: {a} || model: {mo.get("M")}')
@@ -2455,6 +2462,13 @@ class C16(Prop):
                     out.append(self.line(f'k{i}g{gap}{mode[0]}', gap, mode, tab, ng, inp))
         return out
 
+    @staticmethod
+    def c06_class(line):
+        """the class for which 'pending error = summary of the event log' is a theorem (C06): no negative lookahead, no
+        decorations, no recovery"""
+        g = line.partition(' G ')[2].partition(' I ')[0].split()
+        return not any(t in ('not', 'label', 'maperr', 'recvia', 'recskip', 'recretry') for t in g)
+
     def group_of(self, line):
         cid = line.split(' ')[1]
         m = _re.match(r'([a-z])(\d+)', cid)
@@ -2576,12 +2590,31 @@ class C16(Prop):
                         if not ok:
                             pred = False
                             why = f'choice over a nested parse: nested alone gives {nn}, the other alternative alone gives {cc}'
+            # (3) the inner failure surfaces: the reported primary error is the priority-merge of ALL failure events of the run
+            #     (outer events and the failures of nested parses re-homed just after their group token), as summarised from the
+            #     model's ghost event log (not from the model's pending error): description and span
+            x = mo.get('X')
+            if pred and x and x != 'none' and im['kind'] == 'R' and im.get('out') is None and im.get('errs') and self.c06_class(line):
+                e = parse_err(im['errs'][-1])
+                xp, xspan, xdesc = x.split(' ', 2)
+                if e is not None:
+                    got = ('C' + e['custom']) if 'custom' in e else 'E[' + e['expected'] + ']'
+                    if got != xdesc or f'{e["start"]}-{e["end"]}' != xspan:
+                        pred = False
+                        why = (f'the reported primary error {got} at {e["start"]}-{e["end"]} is not the merge of the furthest failure events '
+                               f'of the run ({xdesc} at {xspan}; an inner failure counts at the outer position just after its group token)')
             if not pred:
                 tot['pred_fail'] += 1
-                self.fail(tot, fails, 'pred', None, 0, f'{why} || {desc(cid, k)} || impl: {a} || spec: {mo.get("S")}')
+                group = [(line, k)]
+                if fam == 'x' and ('y' + cid[1:]) in by_id:
+                    group.append((by_id['y' + cid[1:]], 0))
+                if fam == 'o':
+                    group += [(by_id[f + cid[1:]], k) for f in 'nc' if (f + cid[1:]) in by_id]
+                self.fail(tot, fails, 'pred', group if len(group) > 1 else line, k,
+                          f'{why} || {desc(cid, k)} || impl: {a} || spec: {mo.get("S")}')
             elif a != mo.get('M'):
                 tot['corr_disagree'] += 1
-                self.fail(tot, fails, 'corr', None, 0, f'{desc(cid, k)} || impl: {a} || model: {mo.get("M")}')
+                self.fail(tot, fails, 'corr', line, k, f'{desc(cid, k)} || impl: {a} || model: {mo.get("M")}')
             elif len(tot['samples']) < 3 and im.get('out') is not None and im.get('errs') and any(t >= 1000 for t in toks) and fam == 'r':
                 tot['samples'].append({'case': line.partition(' I ')[0], 'input': toks, 'impl': a})
         return tot, fails
